@@ -88,3 +88,65 @@ for _rk, _ck in spec.PAIRS:
     from pvc.harness import REGISTRY
 
     REGISTRY.append(_CubeCountsContract(_rk, _ck))
+
+
+class _CubeCountsTwins(Contract):
+    """C10: the cube-count class for the pairing (A, B) on a tensor and the class for (B, A)
+    on the transposed tensor (item axis and selection axis of each side move together) are
+    each other's transposes: counts, table bases, row bases <-> column bases, 1-D margins,
+    pruning bases and masks.  A relational contract on the two real classes."""
+
+    props = ("C10",)
+
+    def __init__(self, rk, ck):
+        self.rk, self.ck = rk, ck
+        self.name = "%s:twins %s <-> %s" % (MOD, spec.CLASS_OF_PAIR[(rk, ck)], spec.CLASS_OF_PAIR[(ck, rk)])
+
+    def size_space(self, cfg):
+        return {"R": [1, 2, 3], "C": [1, 2, 3]}
+
+    def run(self, B, cfg):
+        rk, ck = self.rk, self.ck
+        R, C = B.size("R"), B.size("C")
+        T = B.tensor("T", spec.tensor_shape(rk, ck, R, C), nonneg=True)
+
+        def tT(*idx):
+            # idx is an index of the transposed tensor: (j, [sj], i, [si])
+            idx = list(idx)
+            j = idx.pop(0)
+            sj = idx.pop(0) if ck == "MR" else None
+            i = idx.pop(0)
+            si = idx.pop(0) if rk == "MR" else None
+            src = [i] + ([si] if rk == "MR" else []) + [j] + ([sj] if ck == "MR" else [])
+            return B.rd(T, *src)
+
+        Tt = B.spec_tensor(spec.tensor_shape(ck, rk, C, R), tT)
+        dims = B.stub("dimensions")
+        a = B.new("%s:%s" % (MOD, spec.CLASS_OF_PAIR[(rk, ck)]), dims, T, False)
+        b = B.new("%s:%s" % (MOD, spec.CLASS_OF_PAIR[(ck, rk)]), dims, Tt, False)
+
+        def tr(t):
+            return B.spec_tensor((R, C), lambda i, j: B.rd(t, j, i))
+
+        B.eq_tensor("counts", a.counts, tr(b.counts))
+        B.eq_tensor("table_bases", a.table_bases, tr(b.table_bases))
+        B.eq_tensor("row_bases<->column_bases", a.row_bases, tr(b.column_bases))
+        B.eq_tensor("column_bases<->row_bases", a.column_bases, tr(b.row_bases))
+        for x, y in (("rows_base", "columns_base"), ("columns_base", "rows_base"),
+                     ("rows_table_base", "columns_table_base"), ("columns_table_base", "rows_table_base"),
+                     ("_rows_pruning_base", "_columns_pruning_base"), ("_columns_pruning_base", "_rows_pruning_base")):
+            va, vb = getattr(a, x), getattr(b, y)
+            if va is None or vb is None:
+                B.check("%s<->%s:both-undefined" % (x, y), va is None and vb is None)
+            else:
+                n = R if x.lstrip("_").startswith("rows") else C
+                B.eq_tensor("%s<->%s" % (x, y), va, B.spec_tensor((n,), lambda k, vb=vb: B.rd(vb, k)))
+        ta, tb_ = a.table_base, b.table_base
+        if ta is None or tb_ is None:
+            B.check("table_base:both-undefined", ta is None and tb_ is None)
+        else:
+            B.eq_scalar("table_base", ta, tb_)
+
+
+for _rk, _ck in spec.PAIRS:
+    REGISTRY.append(_CubeCountsTwins(_rk, _ck))
